@@ -291,6 +291,9 @@ func (r *rewriter) stmts(list []ast.Stmt) []ast.Stmt {
 				continue
 			}
 		case *ast.SendStmt:
+			if r.seen[st] {
+				break // the communication of a rewritten select case: vsched.Select already decided and booked it
+			}
 			r.changed, r.needVS = true, true
 			out = append(out, &ast.ExprStmt{X: call("vsched", q("Send"), st.Chan, st.Value)})
 			continue
